@@ -154,7 +154,7 @@ impl Ev {
             }
             "reset" => Ev::Reset,
             "resets" => Ev::Resets { n: n(1, 70000)? as u32 },
-            "repeat" => Ev::Repeat { k: n(1, 16)? as u8, n: n(1, 65535)? as u16 },
+            "repeat" => Ev::Repeat { k: n(1, 16)? as u8, n: n(2, 65535)? as u16 },
             "snapshot" => Ev::Snapshot,
             "restore" => Ev::Restore,
             "fork" => {
